@@ -56,10 +56,11 @@ structure Good (cfg : Cfg) (p : Nat → Nat → Bool) (st : St) : Prop where
 /-- … as long as no `enter` has overwritten a waiting timer -/
 def GoodIf (cfg : Cfg) (p : Nat → Nat → Bool) (st : St) : Prop := st.leaked = false → Good cfg p st
 
-theorem tEnter_good (cfg : Cfg) (p : Nat → Nat → Bool) (m s : Nat) (st : St) (h : GoodIf cfg p st) :
+theorem tEnter_good (cfg : Cfg) (hk : ∀ m, cfg.key m = m) (p : Nat → Nat → Bool) (m s : Nat) (st : St) (h : GoodIf cfg p st) :
     GoodIf cfg p (tEnter cfg m s st) := by
   intro hl
   unfold tEnter at hl ⊢
+  rw [hk m] at hl ⊢
   by_cases hT : 0 < cfg.timeout s
   · simp only [hT, if_true] at hl ⊢
     simp only [Bool.or_eq_false_iff] at hl
@@ -219,13 +220,14 @@ theorem getElem?_cancelTimer (ts : List Timer) (i j : Nat) :
       · simp [hw, hji]
 
 
-theorem tExit_fields (m s : Nat) (st : St) :
-    (tExit m s st).runner = st.runner ∧ (tExit m s st).now = st.now ∧ (tExit m s st).leaked = st.leaked ∧
-    (tExit m s st).log = st.log ++ [.exit m s] ∧
-    (tExit m s st).timers = (match st.runner s m with
+theorem tExit_fields (cfg : Cfg) (hk : ∀ m, cfg.key m = m) (m s : Nat) (st : St) :
+    (tExit cfg m s st).runner = st.runner ∧ (tExit cfg m s st).now = st.now ∧ (tExit cfg m s st).leaked = st.leaked ∧
+    (tExit cfg m s st).log = st.log ++ [.exit m s] ∧
+    (tExit cfg m s st).timers = (match st.runner s m with
       | some i => cancelTimer st.timers i
       | none => st.timers) := by
   unfold tExit
+  rw [hk m]
   cases hr : st.runner s m with
   | none => simp [St.emit]
   | some i =>
@@ -238,9 +240,9 @@ theorem tExit_fields (m s : Nat) (st : St) :
           intro hw; apply ha; simp [Timer.isAlive, hw]
         simp [St.emit, ha, cancelTimer, ht, hw]
 
-theorem tExit_quench (m s : Nat) (st : St) (i : Nat) (hr : st.runner s m = some i) :
-    Quench st (tExit m s st) i := by
-  obtain ⟨h1, h2, _, _, h5⟩ := tExit_fields m s st
+theorem tExit_quench (cfg : Cfg) (hk : ∀ m, cfg.key m = m) (m s : Nat) (st : St) (i : Nat) (hr : st.runner s m = some i) :
+    Quench st (tExit cfg m s st) i := by
+  obtain ⟨h1, h2, _, _, h5⟩ := tExit_fields cfg hk m s st
   refine ⟨h1, h2, fun t => if t.phase = .waiting then { t with phase := .finished } else t, ?_, ?_⟩
   · intro t
     by_cases hw : t.phase = .waiting
@@ -250,18 +252,18 @@ theorem tExit_quench (m s : Nat) (st : St) (i : Nat) (hr : st.runner s m = some 
     rw [h5, hr]
     exact getElem?_cancelTimer st.timers i j
 
-theorem tExit_good (cfg : Cfg) (p : Nat → Nat → Bool) (m s : Nat) (st : St) (h : GoodIf cfg p st) :
-    GoodIf cfg p (tExit m s st) := by
+theorem tExit_good (cfg : Cfg) (hk : ∀ m, cfg.key m = m) (p : Nat → Nat → Bool) (m s : Nat) (st : St) (h : GoodIf cfg p st) :
+    GoodIf cfg p (tExit cfg m s st) := by
   intro hl
-  obtain ⟨h1, h2, h3, h4, h5⟩ := tExit_fields m s st
+  obtain ⟨h1, h2, h3, h4, h5⟩ := tExit_fields cfg hk m s st
   rw [h3] at hl
   have g := h hl
-  have hmon : monOf (specOf cfg) (tExit m s st).log = mstep (specOf cfg) (monOf (specOf cfg) st.log) (.exit m s) := by
+  have hmon : monOf (specOf cfg) (tExit cfg m s st).log = mstep (specOf cfg) (monOf (specOf cfg) st.log) (.exit m s) := by
     rw [h4, monOf_snoc]
   cases hr : st.runner s m with
   | none =>
-    have ht : (tExit m s st).timers = st.timers := by rw [h5, hr]
-    have ha : ∀ s' m', armedOf (tExit m s st) s' m' = armedOf st s' m' := by
+    have ht : (tExit cfg m s st).timers = st.timers := by rw [h5, hr]
+    have ha : ∀ s' m', armedOf (tExit cfg m s st) s' m' = armedOf st s' m' := by
       intro s' m'; simp only [armedOf, h1, ht]
     refine ⟨by rw [h1, ht]; exact g.typed, by rw [h1, ht]; exact g.owned, by rw [h2, ht]; exact g.due,
       by rw [hmon]; exact g.ok, by rw [hmon, h2]; exact g.now, ?_, by intro s' m'; rw [hmon]; exact g.pend s' m',
@@ -273,7 +275,7 @@ theorem tExit_good (cfg : Cfg) (p : Nat → Nat → Bool) (m s : Nat) (st : St) 
     · simp only [hk, and_self, if_true, armedOf, hr]
     · simp only [hk, if_false]; exact g.armed s' m'
   | some i =>
-    have q := tExit_quench m s st i hr
+    have q := tExit_quench cfg hk m s st i hr
     obtain ⟨t1, t2, t3⟩ := q.good_timers g
     refine ⟨t1, t2, t3, by rw [hmon]; exact g.ok, by rw [hmon, h2]; exact g.now, ?_,
       by intro s' m'; rw [hmon]; exact g.pend s' m', by intro s' m'; rw [hmon]; exact g.owed s' m'⟩
@@ -294,36 +296,36 @@ theorem tExit_good (cfg : Cfg) (p : Nat → Nat → Bool) (m s : Nat) (st : St) 
       exact g.armed s' m'
 
 
-theorem act_good (cfg : Cfg) (p : Nat → Nat → Bool) (m : Nat) (a : Bool × Nat) (st : St) (h : GoodIf cfg p st) :
+theorem act_good (cfg : Cfg) (hk : ∀ m, cfg.key m = m) (p : Nat → Nat → Bool) (m : Nat) (a : Bool × Nat) (st : St) (h : GoodIf cfg p st) :
     GoodIf cfg p (act cfg m st a) := by
   unfold act
   split
-  · exact tEnter_good cfg p m a.2 st h
-  · exact tExit_good cfg p m a.2 st h
+  · exact tEnter_good cfg hk p m a.2 st h
+  · exact tExit_good cfg hk p m a.2 st h
 
-theorem acts_good (cfg : Cfg) (p : Nat → Nat → Bool) (m : Nat) (prog : List (Bool × Nat)) (st : St)
+theorem acts_good (cfg : Cfg) (hk : ∀ m, cfg.key m = m) (p : Nat → Nat → Bool) (m : Nat) (prog : List (Bool × Nat)) (st : St)
     (h : GoodIf cfg p st) : GoodIf cfg p (acts cfg m prog st) := by
   induction prog generalizing st with
   | nil => exact h
-  | cons x xs ih => exact ih _ (act_good cfg p m x st h)
+  | cons x xs ih => exact ih _ (act_good cfg hk p m x st h)
 
-theorem trigger_good (cfg : Cfg) (p : Nat → Nat → Bool) (m e : Nat) (st : St) (h : GoodIf cfg p st) :
+theorem trigger_good (cfg : Cfg) (hk : ∀ m, cfg.key m = m) (p : Nat → Nat → Bool) (m e : Nat) (st : St) (h : GoodIf cfg p st) :
     GoodIf cfg p (trigger cfg m e st) := by
   unfold trigger
   split
   · exact h
   · exact h
   · rename_i prog d _ _
-    have h1 := acts_good cfg p m prog st h
+    have h1 := acts_good cfg hk p m prog st h
     intro hl
     have g := h1 hl
     exact ⟨g.typed, g.owned, g.due, g.ok, g.now, g.armed, g.pend, g.owed⟩
 
-theorem triggers_good (cfg : Cfg) (p : Nat → Nat → Bool) (evs : List (Nat × Nat)) (st : St) (h : GoodIf cfg p st) :
+theorem triggers_good (cfg : Cfg) (hk : ∀ m, cfg.key m = m) (p : Nat → Nat → Bool) (evs : List (Nat × Nat)) (st : St) (h : GoodIf cfg p st) :
     GoodIf cfg p (triggers cfg evs st) := by
   induction evs generalizing st with
   | nil => exact h
-  | cons x xs ih => exact ih _ (trigger_good cfg p x.1 x.2 st h)
+  | cons x xs ih => exact ih _ (trigger_good cfg hk p x.1 x.2 st h)
 
 /-! ### how the timer list evolves: deadlines, owners are immutable; a timer never returns to
 `waiting`; timers created later are due in the future -/
@@ -389,15 +391,15 @@ theorem Quench.evolve {st st' : St} {i : Nat} (q : Quench st st' i) : Evolve st 
       simp [hnone j hge] at hj
     · simp [hji, hnone j hge] at hj
 
-theorem tExit_evolve (m s : Nat) (st : St) : Evolve st (tExit m s st) := by
+theorem tExit_evolve (cfg : Cfg) (hk : ∀ m, cfg.key m = m) (m s : Nat) (st : St) : Evolve st (tExit cfg m s st) := by
   cases hr : st.runner s m with
   | none =>
-    obtain ⟨_, h2, _, _, h5⟩ := tExit_fields m s st
+    obtain ⟨_, h2, _, _, h5⟩ := tExit_fields cfg hk m s st
     rw [hr] at h5
     exact Evolve.of_eq h2 h5
-  | some i => exact (tExit_quench m s st i hr).evolve
+  | some i => exact (tExit_quench cfg hk m s st i hr).evolve
 
-theorem tEnter_evolve (cfg : Cfg) (m s : Nat) (st : St) : Evolve st (tEnter cfg m s st) := by
+theorem tEnter_evolve (cfg : Cfg) (hk : ∀ m, cfg.key m = m) (m s : Nat) (st : St) : Evolve st (tEnter cfg m s st) := by
   unfold tEnter
   by_cases hT : 0 < cfg.timeout s
   · simp only [hT, if_true]
@@ -418,33 +420,33 @@ theorem tEnter_evolve (cfg : Cfg) (m s : Nat) (st : St) : Evolve st (tEnter cfg 
   · simp only [hT, if_false]
     exact Evolve.of_eq rfl rfl
 
-theorem act_evolve (cfg : Cfg) (m : Nat) (a : Bool × Nat) (st : St) : Evolve st (act cfg m st a) := by
+theorem act_evolve (cfg : Cfg) (hk : ∀ m, cfg.key m = m) (m : Nat) (a : Bool × Nat) (st : St) : Evolve st (act cfg m st a) := by
   unfold act
   split
-  · exact tEnter_evolve cfg m a.2 st
-  · exact tExit_evolve m a.2 st
+  · exact tEnter_evolve cfg hk m a.2 st
+  · exact tExit_evolve cfg hk m a.2 st
 
-theorem acts_evolve (cfg : Cfg) (m : Nat) (prog : List (Bool × Nat)) (st : St) : Evolve st (acts cfg m prog st) := by
+theorem acts_evolve (cfg : Cfg) (hk : ∀ m, cfg.key m = m) (m : Nat) (prog : List (Bool × Nat)) (st : St) : Evolve st (acts cfg m prog st) := by
   induction prog generalizing st with
   | nil => exact Evolve.refl st
-  | cons x xs ih => exact (act_evolve cfg m x st).trans (ih _)
+  | cons x xs ih => exact (act_evolve cfg hk m x st).trans (ih _)
 
-theorem trigger_evolve (cfg : Cfg) (m e : Nat) (st : St) : Evolve st (trigger cfg m e st) := by
+theorem trigger_evolve (cfg : Cfg) (hk : ∀ m, cfg.key m = m) (m e : Nat) (st : St) : Evolve st (trigger cfg m e st) := by
   unfold trigger
   split
   · exact Evolve.refl st
   · exact Evolve.refl st
   · rename_i prog d _ _
-    have e1 := acts_evolve cfg m prog st
+    have e1 := acts_evolve cfg hk m prog st
     have e2 : Evolve (acts cfg m prog st)
         { acts cfg m prog st with cur := fun m' => if m' = m then d else (acts cfg m prog st).cur m' } :=
       Evolve.of_eq rfl rfl
     exact e1.trans e2
 
-theorem triggers_evolve (cfg : Cfg) (evs : List (Nat × Nat)) (st : St) : Evolve st (triggers cfg evs st) := by
+theorem triggers_evolve (cfg : Cfg) (hk : ∀ m, cfg.key m = m) (evs : List (Nat × Nat)) (st : St) : Evolve st (triggers cfg evs st) := by
   induction evs generalizing st with
   | nil => exact Evolve.refl st
-  | cons x xs ih => exact (trigger_evolve cfg x.1 x.2 st).trans (ih _)
+  | cons x xs ih => exact (trigger_evolve cfg hk x.1 x.2 st).trans (ih _)
 
 
 /-! ### firing -/
@@ -459,7 +461,7 @@ theorem monOf_append (sp : Spec) (log rs : List Rec) : monOf sp (log ++ rs) = rs
   simp [monOf, List.foldl_append]
 
 /-- records that do not touch the timers: the invariant follows from what the acceptor does with them -/
-theorem emits_good (cfg : Cfg) (p p' : Nat → Nat → Bool) (st st' : St) (rs : List Rec) (g : Good cfg p st)
+theorem emits_good (cfg : Cfg) (hk : ∀ m, cfg.key m = m) (p p' : Nat → Nat → Bool) (st st' : St) (rs : List Rec) (g : Good cfg p st)
     (hr : st'.runner = st.runner) (hn : st'.now = st.now) (ht : st'.timers = st.timers) (hlog : st'.log = st.log ++ rs)
     (hok : (rs.foldl (mstep (specOf cfg)) (monOf (specOf cfg) st.log)).ok = true)
     (hnow : (rs.foldl (mstep (specOf cfg)) (monOf (specOf cfg) st.log)).now = (monOf (specOf cfg) st.log).now)
@@ -475,7 +477,7 @@ theorem emits_good (cfg : Cfg) (p p' : Nat → Nat → Bool) (st st' : St) (rs :
   · intro s m; rw [hlog, monOf_append]; exact hpend s m
   · intro s m; rw [hlog, monOf_append]; exact howed s m
 
-theorem fireStart_good (cfg : Cfg) (st : St) (i : Nat) (t : Timer) (hi : st.timers[i]? = some t)
+theorem fireStart_good (cfg : Cfg) (hk : ∀ m, cfg.key m = m) (st : St) (i : Nat) (t : Timer) (hi : st.timers[i]? = some t)
     (hw : t.phase = .waiting) (hd : t.deadline ≤ st.now) (h : GoodIf cfg (fun _ _ => false) st) :
     GoodIf cfg (upd (fun _ _ => false) t.s t.m true)
       (({ st with timers := setPhase st.timers i .running }).emit (.fired t.m t.s)) := by
@@ -513,7 +515,7 @@ theorem fireStart_good (cfg : Cfg) (st : St) (i : Nat) (t : Timer) (hi : st.time
   · intro s' m'
     rw [hmon]; exact g.owed s' m'
 
-theorem handlerEnd_good (cfg : Cfg) (m s : Nat) (r : Bool) (st : St)
+theorem handlerEnd_good (cfg : Cfg) (hk : ∀ m, cfg.key m = m) (m s : Nat) (r : Bool) (st : St)
     (h : GoodIf cfg (upd (fun _ _ => false) s m true) st) :
     GoodIf cfg (fun _ _ => false) (handlerEnd cfg m s r st) := by
   unfold handlerEnd
@@ -523,7 +525,7 @@ theorem handlerEnd_good (cfg : Cfg) (m s : Nat) (r : Bool) (st : St)
       intro hl
       have g := h hl
       have hp : (monOf (specOf cfg) st.log).pend s m = true := by rw [g.pend]; simp [upd]
-      refine emits_good cfg _ _ st _ [.raised m s, .routed m s] g rfl rfl rfl (by simp [St.emit]) ?_ ?_ ?_ ?_ ?_
+      refine emits_good cfg hk _ _ st _ [.raised m s, .routed m s] g rfl rfl rfl (by simp [St.emit]) ?_ ?_ ?_ ?_ ?_
       · simp [mstep, g.ok, hp, upd, hro]
       · simp [mstep]
       · intro s' m'; simp [mstep]
@@ -538,7 +540,7 @@ theorem handlerEnd_good (cfg : Cfg) (m s : Nat) (r : Bool) (st : St)
       intro hl
       have g := h hl
       have hp : (monOf (specOf cfg) st.log).pend s m = true := by rw [g.pend]; simp [upd]
-      refine emits_good cfg _ _ st _ [.raised m s] g rfl rfl rfl (by simp [St.emit]) ?_ ?_ ?_ ?_ ?_
+      refine emits_good cfg hk _ _ st _ [.raised m s] g rfl rfl rfl (by simp [St.emit]) ?_ ?_ ?_ ?_ ?_
       · simp [mstep, g.ok, hp]
       · simp [mstep]
       · intro s' m'; simp [mstep]
@@ -553,7 +555,7 @@ theorem handlerEnd_good (cfg : Cfg) (m s : Nat) (r : Bool) (st : St)
     intro hl
     have g := h hl
     have hp : (monOf (specOf cfg) st.log).pend s m = true := by rw [g.pend]; simp [upd]
-    refine emits_good cfg _ _ st _ [.firedEnd m s] g rfl rfl rfl (by simp [St.emit]) ?_ ?_ ?_ ?_ ?_
+    refine emits_good cfg hk _ _ st _ [.firedEnd m s] g rfl rfl rfl (by simp [St.emit]) ?_ ?_ ?_ ?_ ?_
     · simp [mstep, g.ok, hp]
     · simp [mstep]
     · intro s' m'; simp [mstep]
@@ -563,13 +565,13 @@ theorem handlerEnd_good (cfg : Cfg) (m s : Nat) (r : Bool) (st : St)
     · intro s' m'
       simp only [List.foldl_cons, List.foldl_nil, mstep, g.owed]
 
-theorem handlerEnd_evolve (cfg : Cfg) (m s : Nat) (r : Bool) (st : St) : Evolve st (handlerEnd cfg m s r st) := by
+theorem handlerEnd_evolve (cfg : Cfg) (hk : ∀ m, cfg.key m = m) (m s : Nat) (r : Bool) (st : St) : Evolve st (handlerEnd cfg m s r st) := by
   unfold handlerEnd
   split
   · split <;> exact Evolve.of_eq rfl rfl
   · exact Evolve.of_eq rfl rfl
 
-theorem fireEnd_good (cfg : Cfg) (p : Nat → Nat → Bool) (st : St) (i : Nat)
+theorem fireEnd_good (cfg : Cfg) (hk : ∀ m, cfg.key m = m) (p : Nat → Nat → Bool) (st : St) (i : Nat)
     (hnw : ∀ t, st.timers[i]? = some t → t.phase ≠ .waiting) (h : GoodIf cfg p st) :
     GoodIf cfg p { st with timers := setPhase st.timers i .finished } := by
   intro hl
@@ -607,7 +609,7 @@ def fireBody (cfg : Cfg) (st : St) (i : Nat) (t : Timer) : St :=
       | some e => trigger cfg t.m e (fireStart st i t)
       | none => fireStart st i t)
 
-theorem fire_eq (cfg : Cfg) (i : Nat) (st : St) (t : Timer) (hi : st.timers[i]? = some t) (hw : t.phase = .waiting) :
+theorem fire_eq (cfg : Cfg) (hk : ∀ m, cfg.key m = m) (i : Nat) (st : St) (t : Timer) (hi : st.timers[i]? = some t) (hw : t.phase = .waiting) :
     fire cfg i st = { fireBody cfg st i t with timers := setPhase (fireBody cfg st i t).timers i .finished } := by
   unfold fire
   simp only [hi, hw, if_true, fireBody, fireStart, handlerRaises]
@@ -616,63 +618,63 @@ theorem fire_eq (cfg : Cfg) (i : Nat) (st : St) (t : Timer) (hi : st.timers[i]? 
 theorem fireStart_evolve (st : St) (i : Nat) (t : Timer) : Evolve st (fireStart st i t) :=
   (setPhase_quench st (fireStart st i t) i .running (by decide) rfl rfl rfl).evolve
 
-theorem fireBody_evolve (cfg : Cfg) (st : St) (i : Nat) (t : Timer) : Evolve st (fireBody cfg st i t) := by
+theorem fireBody_evolve (cfg : Cfg) (hk : ∀ m, cfg.key m = m) (st : St) (i : Nat) (t : Timer) : Evolve st (fireBody cfg st i t) := by
   unfold fireBody
   cases cfg.action t.s with
-  | none => exact (fireStart_evolve st i t).trans (handlerEnd_evolve cfg _ _ _ _)
-  | some e => exact ((fireStart_evolve st i t).trans (trigger_evolve cfg _ _ _)).trans (handlerEnd_evolve cfg _ _ _ _)
+  | none => exact (fireStart_evolve st i t).trans (handlerEnd_evolve cfg hk _ _ _ _)
+  | some e => exact ((fireStart_evolve st i t).trans (trigger_evolve cfg hk _ _ _)).trans (handlerEnd_evolve cfg hk _ _ _ _)
 
 /-- at the end of the handler its timer is (still) not waiting -/
-theorem fireBody_notWaiting (cfg : Cfg) (st : St) (i : Nat) (t : Timer) (hi : st.timers[i]? = some t) :
+theorem fireBody_notWaiting (cfg : Cfg) (hk : ∀ m, cfg.key m = m) (st : St) (i : Nat) (t : Timer) (hi : st.timers[i]? = some t) :
     ∀ t', (fireBody cfg st i t).timers[i]? = some t' → t'.phase ≠ .waiting := by
   have h0 : (fireStart st i t).timers[i]? = some { t with phase := .running } := by
     simp [fireStart, St.emit, getElem?_setPhase, hi]
   have ev : Evolve (fireStart st i t) (fireBody cfg st i t) := by
     unfold fireBody
     cases cfg.action t.s with
-    | none => exact handlerEnd_evolve cfg _ _ _ _
-    | some e => exact (trigger_evolve cfg _ _ _).trans (handlerEnd_evolve cfg _ _ _ _)
+    | none => exact handlerEnd_evolve cfg hk _ _ _ _
+    | some e => exact (trigger_evolve cfg hk _ _ _).trans (handlerEnd_evolve cfg hk _ _ _ _)
   intro t' ht'
   obtain ⟨t2, ht2, _, _, _, hw2⟩ := ev.old i _ h0
   rw [ht'] at ht2
   cases ht2
   exact hw2 (by simp)
 
-theorem fire_evolve (cfg : Cfg) (i : Nat) (st : St) : Evolve st (fire cfg i st) := by
+theorem fire_evolve (cfg : Cfg) (hk : ∀ m, cfg.key m = m) (i : Nat) (st : St) : Evolve st (fire cfg i st) := by
   cases hi : st.timers[i]? with
   | none => unfold fire; simp only [hi]; exact Evolve.refl st
   | some t =>
     by_cases hw : t.phase = .waiting
-    · rw [fire_eq cfg i st t hi hw]
+    · rw [fire_eq cfg hk i st t hi hw]
       have q : Quench (fireBody cfg st i t)
           { fireBody cfg st i t with timers := setPhase (fireBody cfg st i t).timers i .finished } i :=
         setPhase_quench _ _ i .finished (by decide) rfl rfl rfl
-      exact (fireBody_evolve cfg st i t).trans q.evolve
+      exact (fireBody_evolve cfg hk st i t).trans q.evolve
     · unfold fire; simp only [hi, hw, if_false]; exact Evolve.refl st
 
-theorem fireIfDue_evolve (cfg : Cfg) (i : Nat) (st : St) : Evolve st (fireIfDue cfg i st) := by
+theorem fireIfDue_evolve (cfg : Cfg) (hk : ∀ m, cfg.key m = m) (i : Nat) (st : St) : Evolve st (fireIfDue cfg i st) := by
   unfold fireIfDue
   split
   · split
-    · exact fire_evolve cfg i st
+    · exact fire_evolve cfg hk i st
     · exact Evolve.refl st
   · exact Evolve.refl st
 
-theorem fireIfDue_good (cfg : Cfg) (i : Nat) (st : St) (h : GoodIf cfg F st) : GoodIf cfg F (fireIfDue cfg i st) := by
+theorem fireIfDue_good (cfg : Cfg) (hk : ∀ m, cfg.key m = m) (i : Nat) (st : St) (h : GoodIf cfg F st) : GoodIf cfg F (fireIfDue cfg i st) := by
   unfold fireIfDue
   cases hi : st.timers[i]? with
   | none => exact h
   | some t =>
     by_cases hc : t.phase = .waiting ∧ t.deadline ≤ st.now
     · simp only [hc, and_self, if_true]
-      rw [fire_eq cfg i st t hi hc.1]
-      apply fireEnd_good cfg F _ i (fireBody_notWaiting cfg st i t hi)
+      rw [fire_eq cfg hk i st t hi hc.1]
+      apply fireEnd_good cfg hk F _ i (fireBody_notWaiting cfg hk st i t hi)
       unfold fireBody
-      apply handlerEnd_good
-      have h1 := fireStart_good cfg st i t hi hc.1 hc.2 h
+      apply handlerEnd_good cfg hk
+      have h1 := fireStart_good cfg hk st i t hi hc.1 hc.2 h
       cases cfg.action t.s with
       | none => exact h1
-      | some e => exact trigger_good cfg _ _ _ _ h1
+      | some e => exact trigger_good cfg hk _ _ _ _ h1
     · simp only [hc, if_false]; exact h
 
 /-! ### time -/
@@ -699,34 +701,34 @@ theorem Quiet.evolve {st st' : St} (q : Quiet st) (e : Evolve st st') : Quiet st
 def LoopInv (idxs : List Nat) (st : St) : Prop :=
   ∀ (i : Nat) (t : Timer), st.timers[i]? = some t → t.phase = .waiting → t.deadline ≤ st.now → i ∈ idxs
 
-theorem fireIfDue_notDue (cfg : Cfg) (k : Nat) (st : St) (t : Timer) (hk : (fireIfDue cfg k st).timers[k]? = some t)
+theorem fireIfDue_notDue (cfg : Cfg) (hk : ∀ m, cfg.key m = m) (k : Nat) (st : St) (t : Timer) (hkk : (fireIfDue cfg k st).timers[k]? = some t)
     (hw : t.phase = .waiting) : ¬ t.deadline ≤ (fireIfDue cfg k st).now := by
-  unfold fireIfDue at hk ⊢
+  unfold fireIfDue at hkk ⊢
   cases hi : st.timers[k]? with
-  | none => simp only [hi] at hk; cases hk
+  | none => simp only [hi] at hkk; cases hkk
   | some t0 =>
     by_cases hc : t0.phase = .waiting ∧ t0.deadline ≤ st.now
-    · simp only [hi, hc, and_self, if_true] at hk
-      rw [fire_eq cfg k st t0 hi hc.1] at hk
-      simp only [getElem?_setPhase, if_true] at hk
+    · simp only [hi, hc, and_self, if_true] at hkk
+      rw [fire_eq cfg hk k st t0 hi hc.1] at hkk
+      simp only [getElem?_setPhase, if_true] at hkk
       cases hb : (fireBody cfg st k t0).timers[k]? with
-      | none => simp [hb] at hk
+      | none => simp [hb] at hkk
       | some tb =>
-        simp only [hb, Option.map_some, Option.some.injEq] at hk
-        subst hk
+        simp only [hb, Option.map_some, Option.some.injEq] at hkk
+        subst hkk
         cases hw
-    · simp only [hi, hc, if_false] at hk ⊢
-      cases hk
+    · simp only [hi, hc, if_false] at hkk ⊢
+      cases hkk
       intro hd
       exact hc ⟨hw, hd⟩
 
-theorem LoopInv.step (cfg : Cfg) (k : Nat) (rest : List Nat) (st : St) (h : LoopInv (k :: rest) st) :
+theorem LoopInv.step (cfg : Cfg) (hk : ∀ m, cfg.key m = m) (k : Nat) (rest : List Nat) (st : St) (h : LoopInv (k :: rest) st) :
     LoopInv rest (fireIfDue cfg k st) := by
-  have e := fireIfDue_evolve cfg k st
+  have e := fireIfDue_evolve cfg hk k st
   intro i t' hi hw hd
   by_cases hik : i = k
   · subst hik
-    exact absurd hd (fireIfDue_notDue cfg i st t' hi hw)
+    exact absurd hd (fireIfDue_notDue cfg hk i st t' hi hw)
   · by_cases hlt : i < st.timers.length
     · obtain ⟨t, ht⟩ : ∃ t, st.timers[i]? = some t := ⟨st.timers[i], List.getElem?_eq_getElem hlt⟩
       obtain ⟨t2, ht2, d2, _, _, w2⟩ := e.old i t ht
@@ -744,7 +746,7 @@ theorem LoopInv.step (cfg : Cfg) (k : Nat) (rest : List Nat) (st : St) (h : Loop
       rw [e.now] at hd
       omega
 
-theorem fireAll_quiet (cfg : Cfg) (idxs : List Nat) (st : St) (h : LoopInv idxs st) : Quiet (fireAll cfg idxs st) := by
+theorem fireAll_quiet (cfg : Cfg) (hk : ∀ m, cfg.key m = m) (idxs : List Nat) (st : St) (h : LoopInv idxs st) : Quiet (fireAll cfg idxs st) := by
   induction idxs generalizing st with
   | nil =>
     intro i t hi hw
@@ -752,15 +754,15 @@ theorem fireAll_quiet (cfg : Cfg) (idxs : List Nat) (st : St) (h : LoopInv idxs 
     intro hd
     have := h i t hi hw hd
     cases this
-  | cons k rest ih => exact ih _ (LoopInv.step cfg k rest st h)
+  | cons k rest ih => exact ih _ (LoopInv.step cfg hk k rest st h)
 
-theorem fireAll_good (cfg : Cfg) (idxs : List Nat) (st : St) (h : GoodIf cfg F st) : GoodIf cfg F (fireAll cfg idxs st) := by
+theorem fireAll_good (cfg : Cfg) (hk : ∀ m, cfg.key m = m) (idxs : List Nat) (st : St) (h : GoodIf cfg F st) : GoodIf cfg F (fireAll cfg idxs st) := by
   induction idxs generalizing st with
   | nil => exact h
-  | cons k rest ih => exact ih _ (fireIfDue_good cfg k st h)
+  | cons k rest ih => exact ih _ (fireIfDue_good cfg hk k st h)
 
 /-- what the acceptor checks before time may pass (and at the end of the observation) -/
-theorem quiet_of (cfg : Cfg) (st : St) (g : Good cfg F st) (q : Quiet st) : quiet (monOf (specOf cfg) st.log) = true := by
+theorem quiet_of (cfg : Cfg) (hk : ∀ m, cfg.key m = m) (st : St) (g : Good cfg F st) (q : Quiet st) : quiet (monOf (specOf cfg) st.log) = true := by
   unfold quiet
   rw [List.all_eq_true]
   intro k _
@@ -777,11 +779,11 @@ theorem quiet_of (cfg : Cfg) (st : St) (g : Good cfg F st) (q : Quiet st) : quie
       · simp only [ht, hw, if_true, decide_eq_true_eq]; exact q i t ht hw
       · simp only [ht, hw, if_false]
 
-theorem tick_start_good (cfg : Cfg) (st : St) (q : Quiet st) (h : GoodIf cfg F st) :
+theorem tick_start_good (cfg : Cfg) (hk : ∀ m, cfg.key m = m) (st : St) (q : Quiet st) (h : GoodIf cfg F st) :
     GoodIf cfg F (({ st with now := st.now + 1 }).emit .tick) := by
   intro hl
   have g := h hl
-  have hq := quiet_of cfg st g q
+  have hq := quiet_of cfg hk st g q
   have hmon : monOf (specOf cfg) (({ st with now := st.now + 1 }).emit .tick).log
       = mstep (specOf cfg) (monOf (specOf cfg) st.log) .tick := by simp only [St.emit, monOf_snoc]
   refine ⟨g.typed, g.owned, ?_, ?_, ?_, ?_, ?_, ?_⟩
@@ -793,34 +795,34 @@ theorem tick_start_good (cfg : Cfg) (st : St) (q : Quiet st) (h : GoodIf cfg F s
   · intro s m; rw [hmon]; simp only [mstep]; exact g.pend s m
   · intro s m; rw [hmon]; simp only [mstep]; exact g.owed s m
 
-theorem tickOp_good (cfg : Cfg) (early : List (Nat × Nat)) (st : St) (q : Quiet st) (h : GoodIf cfg F st) :
+theorem tickOp_good (cfg : Cfg) (hk : ∀ m, cfg.key m = m) (early : List (Nat × Nat)) (st : St) (q : Quiet st) (h : GoodIf cfg F st) :
     GoodIf cfg F (tickOp cfg early st) := by
   unfold tickOp
-  exact fireAll_good cfg _ _ (triggers_good cfg F early _ (tick_start_good cfg st q h))
+  exact fireAll_good cfg hk _ _ (triggers_good cfg hk F early _ (tick_start_good cfg hk st q h))
 
-theorem tickOp_quiet (cfg : Cfg) (early : List (Nat × Nat)) (st : St) : Quiet (tickOp cfg early st) := by
+theorem tickOp_quiet (cfg : Cfg) (hk : ∀ m, cfg.key m = m) (early : List (Nat × Nat)) (st : St) : Quiet (tickOp cfg early st) := by
   unfold tickOp
-  apply fireAll_quiet
+  apply fireAll_quiet cfg hk
   intro i t hi _ _
   exact List.mem_range.mpr (List.getElem?_eq_some_iff.mp hi).1
 
-theorem step_good (cfg : Cfg) (op : Op) (st : St) (q : Quiet st) (h : GoodIf cfg F st) : GoodIf cfg F (step cfg st op) := by
+theorem step_good (cfg : Cfg) (hk : ∀ m, cfg.key m = m) (op : Op) (st : St) (q : Quiet st) (h : GoodIf cfg F st) : GoodIf cfg F (step cfg st op) := by
   cases op with
-  | tick early => exact tickOp_good cfg early st q h
-  | ev m e => exact trigger_good cfg F m e st h
+  | tick early => exact tickOp_good cfg hk early st q h
+  | ev m e => exact trigger_good cfg hk F m e st h
 
-theorem step_quiet (cfg : Cfg) (op : Op) (st : St) (q : Quiet st) : Quiet (step cfg st op) := by
+theorem step_quiet (cfg : Cfg) (hk : ∀ m, cfg.key m = m) (op : Op) (st : St) (q : Quiet st) : Quiet (step cfg st op) := by
   cases op with
-  | tick early => exact tickOp_quiet cfg early st
-  | ev m e => exact q.evolve (trigger_evolve cfg m e st)
+  | tick early => exact tickOp_quiet cfg hk early st
+  | ev m e => exact q.evolve (trigger_evolve cfg hk m e st)
 
-theorem run_inv (cfg : Cfg) (h : List Op) (st : St) (q : Quiet st) (g : GoodIf cfg F st) :
+theorem run_inv (cfg : Cfg) (hk : ∀ m, cfg.key m = m) (h : List Op) (st : St) (q : Quiet st) (g : GoodIf cfg F st) :
     Quiet (run cfg h st) ∧ GoodIf cfg F (run cfg h st) := by
   induction h generalizing st with
   | nil => exact ⟨q, g⟩
-  | cons op rest ih => exact ih _ (step_quiet cfg op st q) (step_good cfg op st q g)
+  | cons op rest ih => exact ih _ (step_quiet cfg hk op st q) (step_good cfg hk op st q g)
 
-theorem init_good (cfg : Cfg) (cur : Nat → Nat) : Good cfg F (St.init cur) := by
+theorem init_good (cfg : Cfg) (hk : ∀ m, cfg.key m = m) (cur : Nat → Nat) : Good cfg F (St.init cur) := by
   refine ⟨?_, ?_, ?_, rfl, rfl, ?_, ?_, ?_⟩
   · intro s m i hi; simp [St.init] at hi
   · intro i t hi; simp [St.init] at hi
@@ -1075,10 +1077,11 @@ theorem Quench.slot_other {st st' : St} {i : Nat} (q : Quench st st' i) (hty : T
       exact hm hm'
     · simp [hji]
 
-theorem tExit_frame (m m' s : Nat) (st : St) (hne : m ≠ m') (hty : Typed st) : Frame m' st (tExit m s st) := by
-  obtain ⟨h1, h2, _, h4, h5⟩ := tExit_fields m s st
-  have hcur : (tExit m s st).cur = st.cur := by
+theorem tExit_frame (cfg : Cfg) (hk : ∀ m, cfg.key m = m) (m m' s : Nat) (st : St) (hne : m ≠ m') (hty : Typed st) : Frame m' st (tExit cfg m s st) := by
+  obtain ⟨h1, h2, _, h4, h5⟩ := tExit_fields cfg hk m s st
+  have hcur : (tExit cfg m s st).cur = st.cur := by
     unfold tExit
+    rw [hk m]
     cases hr : st.runner s m with
     | none => rfl
     | some i =>
@@ -1088,7 +1091,7 @@ theorem tExit_frame (m m' s : Nat) (st : St) (hne : m ≠ m') (hty : Typed st) :
         by_cases ha : t.isAlive = true
         · simp [St.emit, ht, ha]
         · simp [St.emit, ht, ha]
-  have hlog : ∃ seg, (tExit m s st).log = st.log ++ seg ∧ ∀ r ∈ seg, recModel r ≠ some m' :=
+  have hlog : ∃ seg, (tExit cfg m s st).log = st.log ++ seg ∧ ∀ r ∈ seg, recModel r ≠ some m' :=
     ⟨[.exit m s], h4, fun r hr => by
       simp only [List.mem_singleton] at hr; subst hr; simp [recModel, hne]⟩
   cases hr : st.runner s m with
@@ -1098,12 +1101,13 @@ theorem tExit_frame (m m' s : Nat) (st : St) (hne : m ≠ m') (hty : Typed st) :
     · intro s'; simp only [C17.slot, h1, h5]
     · intro s' m'' i hi; rw [h1] at hi; rw [h5]; exact hty s' m'' i hi
   | some i =>
-    have q := tExit_quench m s st i hr
+    have q := tExit_quench cfg hk m s st i hr
     obtain ⟨t, ht, _, hm⟩ := hty s m i hr
     exact ⟨by rw [hcur], q.slot_other hty t ht m' (by rw [hm]; exact hne), hlog, q.typed hty⟩
 
-theorem tEnter_typed (cfg : Cfg) (m s : Nat) (st : St) (hty : Typed st) : Typed (tEnter cfg m s st) := by
+theorem tEnter_typed (cfg : Cfg) (hk : ∀ m, cfg.key m = m) (m s : Nat) (st : St) (hty : Typed st) : Typed (tEnter cfg m s st) := by
   unfold tEnter
+  rw [hk m]
   by_cases hT : 0 < cfg.timeout s
   · simp only [hT, if_true]
     intro s' m' i hi
@@ -1119,15 +1123,16 @@ theorem tEnter_typed (cfg : Cfg) (m s : Nat) (st : St) (hty : Typed st) : Typed 
   · simp only [hT, if_false]
     exact hty
 
-theorem tEnter_frame (cfg : Cfg) (m m' s : Nat) (st : St) (hne : m ≠ m') (hty : Typed st) :
+theorem tEnter_frame (cfg : Cfg) (hk : ∀ m, cfg.key m = m) (m m' s : Nat) (st : St) (hne : m ≠ m') (hty : Typed st) :
     Frame m' st (tEnter cfg m s st) := by
-  have hty' := tEnter_typed cfg m s st hty
+  have hty' := tEnter_typed cfg hk m s st hty
   have hlog : ∃ seg, (tEnter cfg m s st).log = st.log ++ seg ∧ ∀ r ∈ seg, recModel r ≠ some m' :=
     ⟨[.enter m s], by unfold tEnter; split <;> rfl, fun r hr => by
       simp only [List.mem_singleton] at hr; subst hr; simp [recModel, hne]⟩
   refine ⟨by unfold tEnter; split <;> rfl, ?_, hlog, hty'⟩
   intro s'
   unfold tEnter
+  rw [hk m]
   by_cases hT : 0 < cfg.timeout s
   · simp only [hT, if_true, C17.slot]
     have hk : ¬ (s' = s ∧ m' = m) := fun h => hne h.2.symm
@@ -1140,29 +1145,29 @@ theorem tEnter_frame (cfg : Cfg) (m m' s : Nat) (st : St) (hne : m ≠ m') (hty 
       simp [List.getElem?_append_left hlt]
   · simp only [hT, if_false]; rfl
 
-theorem act_frame (cfg : Cfg) (m m' : Nat) (a : Bool × Nat) (st : St) (hne : m ≠ m') (hty : Typed st) :
+theorem act_frame (cfg : Cfg) (hk : ∀ m, cfg.key m = m) (m m' : Nat) (a : Bool × Nat) (st : St) (hne : m ≠ m') (hty : Typed st) :
     Frame m' st (act cfg m st a) := by
   unfold act
   split
-  · exact tEnter_frame cfg m m' a.2 st hne hty
-  · exact tExit_frame m m' a.2 st hne hty
+  · exact tEnter_frame cfg hk m m' a.2 st hne hty
+  · exact tExit_frame cfg hk m m' a.2 st hne hty
 
-theorem acts_frame (cfg : Cfg) (m m' : Nat) (prog : List (Bool × Nat)) (st : St) (hne : m ≠ m') (hty : Typed st) :
+theorem acts_frame (cfg : Cfg) (hk : ∀ m, cfg.key m = m) (m m' : Nat) (prog : List (Bool × Nat)) (st : St) (hne : m ≠ m') (hty : Typed st) :
     Frame m' st (acts cfg m prog st) := by
   induction prog generalizing st with
   | nil => exact Frame.refl m' st hty
   | cons x xs ih =>
-    have f1 := act_frame cfg m m' x st hne hty
+    have f1 := act_frame cfg hk m m' x st hne hty
     exact f1.trans (ih _ f1.typed)
 
-theorem trigger_frame (cfg : Cfg) (m m' e : Nat) (st : St) (hne : m ≠ m') (hty : Typed st) :
+theorem trigger_frame (cfg : Cfg) (hk : ∀ m, cfg.key m = m) (m m' e : Nat) (st : St) (hne : m ≠ m') (hty : Typed st) :
     Frame m' st (trigger cfg m e st) := by
   unfold trigger
   split
   · exact Frame.refl m' st hty
   · exact Frame.refl m' st hty
   · rename_i prog d _ _
-    have f1 := acts_frame cfg m m' prog st hne hty
+    have f1 := acts_frame cfg hk m m' prog st hne hty
     have f2 : Frame m' (acts cfg m prog st)
         { acts cfg m prog st with cur := fun m'' => if m'' = m then d else (acts cfg m prog st).cur m'' } :=
       ⟨by have hmm : ¬ m' = m := fun h => hne h.symm
@@ -1170,13 +1175,13 @@ theorem trigger_frame (cfg : Cfg) (m m' e : Nat) (st : St) (hne : m ≠ m') (hty
     exact f1.trans f2
 
 /-- every operation only appends to the log -/
-theorem trigger_log (cfg : Cfg) (m e : Nat) (st : St) : ∃ seg, (trigger cfg m e st).log = st.log ++ seg := by
+theorem trigger_log (cfg : Cfg) (hk : ∀ m, cfg.key m = m) (m e : Nat) (st : St) : ∃ seg, (trigger cfg m e st).log = st.log ++ seg := by
   have ha : ∀ a st, ∃ seg, (act cfg m st a).log = st.log ++ seg := by
     intro a st
     unfold act
     split
     · exact ⟨[.enter m a.2], by unfold tEnter; split <;> rfl⟩
-    · exact ⟨[.exit m a.2], (tExit_fields m a.2 st).2.2.2.1⟩
+    · exact ⟨[.exit m a.2], (tExit_fields cfg hk m a.2 st).2.2.2.1⟩
   have hx : ∀ prog st, ∃ seg, (acts cfg m prog st).log = st.log ++ seg := by
     intro prog
     induction prog with
@@ -1243,12 +1248,12 @@ theorem must_fire (sp : Spec) (m s : Nat) (pre mid post : List Rec) (hT : 0 < sp
   have := quiet_armed _ s m _ hq k2 a2
   omega
 
-theorem fire_log (cfg : Cfg) (i : Nat) (st : St) (t : Timer) (hi : st.timers[i]? = some t) (hw : t.phase = .waiting) :
+theorem fire_log (cfg : Cfg) (hk : ∀ m, cfg.key m = m) (i : Nat) (st : St) (t : Timer) (hi : st.timers[i]? = some t) (hw : t.phase = .waiting) :
     ∃ mid, (fire cfg i st).log = st.log ++ .fired t.m t.s :: mid ++
       (if cfg.raises t.s || handlerRaises cfg st i t then
         (if cfg.async && cfg.onExc then [.raised t.m t.s, .routed t.m t.s] else [.raised t.m t.s])
        else [.firedEnd t.m t.s]) := by
-  rw [fire_eq cfg i st t hi hw]
+  rw [fire_eq cfg hk i st t hi hw]
   simp only [fireBody]
   have hs : (fireStart st i t).log = st.log ++ [.fired t.m t.s] := rfl
   have hmid : ∃ mid, (match cfg.action t.s with
@@ -1257,7 +1262,7 @@ theorem fire_log (cfg : Cfg) (i : Nat) (st : St) (t : Timer) (hi : st.timers[i]?
     cases cfg.action t.s with
     | none => exact ⟨[], by simp [hs]⟩
     | some e =>
-      obtain ⟨seg, h⟩ := trigger_log cfg t.m e (fireStart st i t)
+      obtain ⟨seg, h⟩ := trigger_log cfg hk t.m e (fireStart st i t)
       exact ⟨seg, by simp only [h, hs]; simp⟩
   obtain ⟨mid, hm⟩ := hmid
   refine ⟨mid, ?_⟩
@@ -1272,9 +1277,9 @@ theorem fire_log (cfg : Cfg) (i : Nat) (st : St) (t : Timer) (hi : st.timers[i]?
     simp only [hr', Bool.false_eq_true, if_false, St.emit, hm]
 
 /-- `cancel()` on a timer whose handler has started changes nothing -/
-theorem tExit_running (m s i : Nat) (st : St) (t : Timer) (hr : st.runner s m = some i)
-    (hi : st.timers[i]? = some t) (hp : t.phase = .running) : (tExit m s st).timers = st.timers := by
-  rw [(tExit_fields m s st).2.2.2.2, hr]
+theorem tExit_running (cfg : Cfg) (hk : ∀ m, cfg.key m = m) (m s i : Nat) (st : St) (t : Timer) (hr : st.runner s m = some i)
+    (hi : st.timers[i]? = some t) (hp : t.phase = .running) : (tExit cfg m s st).timers = st.timers := by
+  rw [(tExit_fields cfg hk m s st).2.2.2.2, hr]
   simp [cancelTimer, hi, hp]
 
 end C17
